@@ -81,7 +81,7 @@ def coverage(v, traces, rule_extra=""):
     for tid, start, trows in traces:
         steps = steps_of(trows)
         evals += len(steps)
-        key = vlib.sha([trows[0].get("side"), trows[0].get("gated"), steps])
+        key = vlib.sha([trows[0].get("side"), trows[0].get("gated"), steps, [r.get("fn") for r in trows if r.get("ev") == "cs"] if trows[0].get("cs") else 0])
         if key in distinct:
             continue
         distinct.add(key)
